@@ -54,3 +54,9 @@ add("C01", "fault_enumeration",
     "The storage packages are rebuilt against an os shim that journals every mutating file operation and elides fsync. For stage plans of 2 and 3 restarts, every state a crash can leave (Model A: each journal prefix with every torn length of the in-flight docs/meta write; Model B: plus every cut of un-synced tails), de-duplicated by a canonical directory hash, is materialised and recovered by the real FracManager.Load in a child process; every document of every bulk is then fetched byte-for-byte and searched by each token (acked => present; unacked => wholly present or absent; never other bytes), more bulks are ingested and the next stage's crash states are explored from there. A subset of states is validated against a child that really dies at that journal position. Found and repaired: replay position drift after an orphan docs block, torn meta tail, lone empty .docs file.",
     "Trusted: the persistence model (data durable once followed by a sync of that file; namespace operations atomic, ordered, durable — a missing directory fsync is outside the model). Bulks are small (1-3 documents), histories have <=3 restarts.",
     "DESIGN.md §3 C01", "E2-vos")
+
+add("C08", "fault_enumeration",
+    "exhaustive crash-state enumeration of the sealing journal (every prefix, every torn length of the temp files, lost unsynced tails) plus every single injected I/O fault (write/sync/rename/create/seek/remove : k-th), recovery by the real loader in child processes",
+    "For every corpus x SkipSortDocs x KeepMetaFile (scaled block constants so that the index has many small blocks) the journal of load + rotate + seal + release is recorded; every crash state (Model A+B) is materialised and recovered in a child, which must serve every ingested document (fetch byte-for-byte, found by each token); and each single fault kind:k, k=1..all observed operations, is injected into a real seal: whether fm.seal terminates the process or Seal returns, the documents must be served in-process (if alive) and after restart from the directory left behind. Found and repaired: write errors of ids/lids blocks were swallowed and a truncated index was published.",
+    "Trusted: persistence model as C01; one fault per run; sealing of bulks of 1-3 documents.",
+    "DESIGN.md §3 C08", "E2-vos")
